@@ -12,6 +12,10 @@ func Encode(data []byte, fragmentSize, redundancy int) ([][]byte, error) {
 		return nil, errors.New("fragment-size must be greater than zero")
 	}
 
+	if len(data) == 0 {
+		return nil, errors.New("data must not be empty")
+	}
+
 	if len(data)%fragmentSize != 0 {
 		return nil, errors.New("length of data must be a multiple of the given fragment-size")
 	}
